@@ -218,6 +218,22 @@ impl Check for C11 {
 				}
 			}
 		}
+		// degenerate batch lengths: the dyn and the static config-level over() agree on empty and one-element input too
+		for l in 0..=c.stream.len().min(3) {
+			stats.fault("replica:dyn_over_short_batch");
+			let st = guarded(|| (info.cfg_over)(cfg, &c.stream[..l]));
+			let dy = guarded(|| (info.dyn_over)(cfg, &c.stream[..l]));
+			match (st, dy) {
+				(Ok(Ok(x)), Ok(Ok(y))) => {
+					if x != y {
+						fail!("dyn_equals_static", l, "config over() on {l} candles: static returns {} results, dyn returns {} (or different ones)", x.len(), y.len());
+					}
+				}
+				(Ok(Err(_)), Ok(Err(_))) => {}
+				(Err(_), Err(_)) => {}
+				(x, y) => fail!("dyn_equals_static", l, "config over() on {l} candles: static {:?}, dyn {:?}", x.map(|r| r.map(|v| v.len())), y.map(|r| r.map(|v| v.len()))),
+			}
+		}
 		// ---- shape monitor on run A + static vs dyn replicas
 		if let Some(f) = meng::factory(c) {
 			if let Ok(a) = meng::run_a(&f, &c.stream) {
